@@ -9,6 +9,7 @@ package lab
 import (
 	"bytes"
 	"fmt"
+	"io"
 	"os"
 	"strings"
 	"sync/atomic"
@@ -70,6 +71,8 @@ type Config struct {
 	StoreKind string // memory (default) | file | sql
 	StoreDir  string // for persistent kinds; shared across Reopen
 	Tag       string // makes CompIDs unique
+	Sender    string // fixed CompIDs (self-test); one such session at a time
+	Target    string
 }
 
 var labCounter int64
@@ -90,6 +93,7 @@ type Lab struct {
 	RawThisStep    [][]byte
 	ClosedThisStep bool
 	closedSeen     bool
+	inBuf          []byte // bytes received on the current connection that do not form a complete frame yet
 }
 
 // App is the recording Application stub; behaviour is pluggable.
@@ -227,6 +231,9 @@ func New(cfg Config) (*Lab, error) {
 		// persistent stores are keyed by the session id: keep it stable across Reopen
 		l.SID.SenderCompID = "E" + cfg.Tag
 	}
+	if cfg.Sender != "" {
+		l.SID.SenderCompID, l.SID.TargetCompID = cfg.Sender, cfg.Target
+	}
 	l.App = &App{L: l}
 	ss := quickfix.NewSessionSettings()
 	if cfg.Begin == "FIXT.1.1" {
@@ -324,6 +331,7 @@ func (l *Lab) Connect() error {
 	l.Conn++
 	l.Out = make(chan []byte, 8192)
 	l.closedSeen = false
+	l.inBuf = nil
 	err := l.V.Connect(l.Out)
 	l.drain()
 	return err
@@ -331,18 +339,38 @@ func (l *Lab) Connect() error {
 
 // In feeds inbound bytes through the real stream parser, then to the session, frame by frame.
 // It returns the number of frames the parser extracted.
+//
+// Stream semantics are those of a connection: bytes that do not yet form a complete frame stay in
+// the connection's buffer and combine with what arrives next (a too-long BodyLength swallows the
+// following message), and a framing error ends the read side of the connection — the engine's
+// readLoop returns and the session sees the transport closed.
 func (l *Lab) In(desc string, raw []byte) int {
 	l.begin("in: " + desc + " " + fixwire.Pipe(raw))
-	p := quickfix.VerifNewParser(bytes.NewReader(raw))
-	n := 0
+	l.inBuf = append(l.inBuf, raw...)
+	p := quickfix.VerifNewParser(bytes.NewReader(l.inBuf))
+	n, consumed := 0, 0
 	for {
 		b, err := p.ReadMessage()
 		if err != nil {
+			if err != io.EOF && l.V.Snapshot().Connected {
+				l.add(Event{Kind: "step", Detail: "(framing error: " + err.Error() + " — read side closed)"}, true)
+				l.inBuf = nil
+				l.V.Disconnected()
+				l.drain()
+				return n
+			}
 			break
+		}
+		if i := bytes.Index(l.inBuf[consumed:], b); i >= 0 {
+			consumed += i + len(b)
 		}
 		n++
 		l.V.Incoming(append([]byte{}, b...), time.Now())
 		l.drain()
+	}
+	l.inBuf = append([]byte{}, l.inBuf[consumed:]...)
+	if !bytes.Contains(l.inBuf, []byte("8=")) || len(l.inBuf) > 1<<20 {
+		l.inBuf = nil // nothing that could still become a frame
 	}
 	l.drain()
 	return n
